@@ -1126,6 +1126,49 @@ func callBuiltin(caller *frame, callpos token.Pos, fn *ssa.Builtin, args []value
 
 	case "ssa:deferstack":
 		return &caller.defers
+
+	// unsafe.String / Slice / SliceData / StringData: views that alias the bytes they are
+	// built from (the interpreter's byte slices are host slices of cells, so the view is
+	// taken with the host's unsafe.Slice and shares the backing array).
+	case "String", "Slice":
+		n := int(asInt64(caller.i, args[1]))
+		p, ok := args[0].(*value)
+		if !ok {
+			caller.i.abort("unsafe.%s: pointer operand of kind %T is not modelled", fn.Name(), args[0])
+		}
+		if n < 0 {
+			panic(targetPanic{"unsafe." + fn.Name() + ": len out of range"})
+		}
+		var view []value
+		if n > 0 {
+			if p == nil {
+				panic(targetPanic{"unsafe." + fn.Name() + ": ptr is nil and len is not zero"})
+			}
+			view = unsafe.Slice(p, n)
+		}
+		if fn.Name() == "String" {
+			return symstr(view)
+		}
+		return view
+	case "SliceData":
+		s, _ := args[0].([]value)
+		if cap(s) == 0 {
+			return (*value)(nil)
+		}
+		return &s[:1][0]
+	case "StringData":
+		switch s := args[0].(type) {
+		case symstr:
+			if len(s) == 0 {
+				return (*value)(nil)
+			}
+			return &s[0]
+		case string:
+			if s == "" {
+				return (*value)(nil)
+			}
+			caller.i.abort("unsafe.StringData of an immutable host string is not modelled")
+		}
 	}
 
 	panic("unknown built-in: " + fn.Name())
